@@ -861,3 +861,62 @@ package tbtc
 //@   opt safe index slice div nil typeassert
 //@   requires mfsp != nil
 // <<< generated (unmarshal)
+
+// ---------------------------------------------------------------------------
+// C38: wallet registry (tbtc side). Storage is written before memory, memory
+// is updated only after storage succeeded, and the cache stays consistent
+// (monitor invariant of the registry mutex).
+// ---------------------------------------------------------------------------
+//@ spec func storageKeyOf(pk ref) string
+//@ spec func pkhOf(pk ref) [20]byte
+//@ spec func walletIdOf(pk ref) [32]byte
+//@ ghost saves int
+//@ ghost archives int
+//@ ghost lastArchivedKey string
+//@ func getWalletStorageKey
+//@   property C38
+//@   opt noframe 1
+//@   opt safe none
+//@   defines @storageKeyOf(walletPublicKey)
+//@ assume func github.com/keep-network/keep-core/pkg/bitcoin.PublicKeyHash
+//@   ensures result == @pkhOf(arg0)
+//@ assume func walletRegistry.calculateWalletIdFunc
+//@   ensures err == nil ==> result0 == @walletIdOf(arg0)
+//@ assume func newWalletRegistry:calculateWalletIdFunc
+//@   ensures err == nil ==> result0 == @walletIdOf(arg0)
+//@ assume func walletStorage.saveSigner
+//@   modifies ghost.saves
+//@   ensures ghost.saves == old(ghost.saves) + ite(result == nil, 1, 0)
+//@ assume func walletStorage.archiveWallet
+//@   modifies ghost.archives, ghost.lastArchivedKey
+//@   ensures ghost.archives == old(ghost.archives) + ite(result == nil, 1, 0) && (result == nil ==> ghost.lastArchivedKey == walletStorageKey)
+
+//@ type walletRegistry
+//@   property C38
+//@   guarded_by mutex walletCache
+//@   writers walletCache : newWalletRegistry, walletRegistry.registerSigner, walletRegistry.archiveWallet
+//@   monitor mutex forall k string :: (k in self.walletCache) ==> self.walletCache[k] != nil && len(self.walletCache[k].signers) >= 1 && self.walletCache[k].signers[0] != nil
+//@   monitor mutex forall k string :: (k in self.walletCache) ==> self.walletCache[k].walletPublicKeyHash == @pkhOf(self.walletCache[k].signers[0].wallet.publicKey)
+//@   monitor mutex forall k string :: (k in self.walletCache) ==> self.walletCache[k].walletID == @walletIdOf(self.walletCache[k].signers[0].wallet.publicKey)
+
+//@ func walletRegistry.registerSigner
+//@   property C38
+//@   opt noframe 1
+//@   opt lock-no-havoc 1
+//@   ensures [memory-is-unchanged-when-registration-fails] err != nil ==> wr.walletCache == old(wr.walletCache)
+//@   ensures [the-signer-is-known-after-registration] err == nil ==> (@storageKeyOf(signer.wallet.publicKey) in wr.walletCache) && len(wr.walletCache[@storageKeyOf(signer.wallet.publicKey)].signers) >= 1 && wr.walletCache[@storageKeyOf(signer.wallet.publicKey)].signers[len(wr.walletCache[@storageKeyOf(signer.wallet.publicKey)].signers) - 1] == signer
+//@   requires wr != nil && signer != nil
+//@   modifies ghost.saves
+//@   ensures [memory-is-updated-only-after-storage-succeeded] ghost.saves == old(ghost.saves) ==> err != nil
+//@   ensures [a-registered-signer-was-persisted] err == nil ==> ghost.saves == old(ghost.saves) + 1
+
+//@ func walletRegistry.archiveWallet
+//@   property C38
+//@   opt noframe 1
+//@   opt lock-no-havoc 1
+//@   ensures [memory-is-unchanged-when-archiving-fails] err != nil ==> wr.walletCache == old(wr.walletCache)
+//@   ensures [the-archived-wallet-is-forgotten] err == nil ==> !(ghost.lastArchivedKey in wr.walletCache)
+//@   requires wr != nil
+//@   modifies ghost.archives, ghost.lastArchivedKey
+//@   ensures [memory-forgets-a-wallet-only-after-storage-archived-it] err == nil ==> ghost.archives == old(ghost.archives) + 1
+//@   ensures [nothing-is-archived-on-error-paths-before-storage] ghost.archives == old(ghost.archives) ==> err != nil
